@@ -89,7 +89,15 @@ pub fn normalise_diag(d: &Diag, world: &World) -> NF {
         severity: d.severity.clone(),
         message: strip_positional_names(&d.message),
         labels,
-        loc_texts: d.locs.iter().map(|l| line_text(world, &l.path, l.line as usize)).collect(),
+        // the source lines the snippet shows (every label's lines, in whatever order the
+        // labels come); the line under the header location if the snippet shows none
+        loc_texts: if d.src_lines.is_empty() {
+            d.locs.iter().map(|l| line_text(world, &l.path, l.line as usize)).collect()
+        } else {
+            let mut v: Vec<String> = d.src_lines.iter().map(|t| t.trim().to_string()).collect();
+            v.sort();
+            v
+        },
         first: d.locs.first().map(|l| (rel_path(&l.path), l.line as usize)),
     }
 }
